@@ -249,7 +249,20 @@ Theorem zp_inv_prod_exact : forall a b j res, a <> [] -> b <> [] -> (S j <= Kmax
   zip_acc Z.add res (conv a b ++ repeat 0 (2 ^ S j - (length a + length b - 1))).
 Proof.
   intros a b j res Ha Hb Hj Htot Hin.
-  apply (proj2 (proj2 (proj2 zp_exact_algebra))); try assumption.
+  apply (proj1 (proj2 (proj2 (proj2 zp_exact_algebra)))); try assumption.
+  unfold inr. rewrite half_val. lia.
+Qed.
+
+(** the two forward transforms on [s0], the inverse transform on any other reachable object *)
+Theorem zp_inv_prod_x_exact : forall (s' : st (F := Fp)) a b j res, reach zp_ops zp_tw s' ->
+  a <> [] -> b <> [] -> (S j <= Kmax)%nat ->
+  (length a + length b - 1 <= 2 ^ S j)%nat ->
+  (forall l, (l < length a + length b - 1)%nat -> inr (conv_coef a b l)) ->
+  snd (inv_prod_x zp_ops zp_tw s0 s' a b (2 ^ S j) res) =
+  zip_acc Z.add res (conv a b ++ repeat 0 (2 ^ S j - (length a + length b - 1))).
+Proof.
+  intros s' a b j res Hr' Ha Hb Hj Htot Hin.
+  apply (proj2 (proj2 (proj2 (proj2 zp_exact_algebra)))); try assumption.
   unfold inr. rewrite half_val. lia.
 Qed.
 
@@ -321,6 +334,43 @@ Example zp_run_inv_prod_acc :
   zip_acc Z.add [1;1;1;1;1;1;1;1] (conv (alt 10 5) (alt 7 4)).
 Proof. vm_compute. reflexivity. Qed.
 
+(** forward transforms on an object that has grown to 64, inverse transform on a FRESH object (size 4) and on
+    an object of size 8: the repaired fft_inv_into grows the inverting object first *)
+Definition s8 : st (F := Fp) := update_n zp_ops zp_tw s0 (2 ^ 3).
+Example zp_run_inv_x_fresh :
+  snd (inv_prod_x zp_ops zp_tw s64 s0 [1;2;3;4;5] [6;7;8;9] 8 (repeat 0 8)) = [6;19;40;70;100;94;76;45].
+Proof. vm_compute. reflexivity. Qed.
+Example zp_run_inv_x_fresh_16 :
+  snd (inv_prod_x zp_ops zp_tw s0 s8 (alt 10 5) (alt 7 4) 16 (repeat 1 16)) =
+  zip_acc Z.add (repeat 1 16) (conv (alt 10 5) (alt 7 4)).
+Proof. vm_compute. reflexivity. Qed.
+Example zp_run_inv_x_state :
+  let st2 := fst (inv_prod_x zp_ops zp_tw s0 s0 [1;2;3;4;5] [6;7;8;9] 8 (repeat 0 8)) in
+  (length (R (fst st2)), length (R (snd st2))) = (8%nat, 8%nat).
+Proof. vm_compute. reflexivity. Qed.
+
+(** the code BEFORE /repo 23bca24 ([fft_inv_into_old]: max_n read without growing the object): the same
+    spectrum inverted on a fresh object (size 4 < 8: stride 0) and on an object of size 8 gives different
+    coefficients, i.e. the result depended on the history of the inverting object.  Exact instance, so the
+    difference is not a rounding effect. *)
+Definition spec8 : list CF :=
+  cprod zp_ops (snd (fft zp_ops zp_tw s0 [1;2;3;4;5] 8)) (snd (fft zp_ops zp_tw s0 [6;7;8;9] 8)).
+Example zp_old_on_size8 : snd (fft_inv_into_old zp_ops zp_tw s8 spec8 (repeat 0 8)) = [6;19;40;70;100;94;76;45].
+Proof. vm_compute. reflexivity. Qed.
+Example zp_old_on_fresh : snd (fft_inv_into_old zp_ops zp_tw s0 spec8 (repeat 0 8)) <> [6;19;40;70;100;94;76;45].
+Proof. vm_compute. discriminate. Qed.
+Example zp_new_on_fresh : snd (fft_inv_into zp_ops zp_tw s0 spec8 (repeat 0 8)) = [6;19;40;70;100;94;76;45].
+Proof. vm_compute. reflexivity. Qed.
+Lemma inv_old_history_dependent :
+  exists (F : Type) (ops : Ops F) (tw : nat -> nat -> F * F) (s s' : st (F := F)) (v : list (F * F)) (dest : list Z),
+    reach ops tw s /\ reach ops tw s' /\ length v = (2 ^ 3)%nat /\
+    snd (fft_inv_into_old ops tw s v dest) <> snd (fft_inv_into_old ops tw s' v dest).
+Proof.
+  exists Fp, zp_ops, zp_tw, s0, s8, spec8, (repeat 0 8).
+  split; [apply reach_new|]. split; [apply reach_upd, reach_new|]. split; [vm_compute; reflexivity|].
+  rewrite zp_old_on_size8. exact zp_old_on_fresh.
+Qed.
+
 (** the instantiated theorem applied to a concrete input (hypotheses discharged by computation) *)
 Lemma forall_lt_dec (P : nat -> Prop) n : Forall P (seq 0 n) -> forall l, (l < n)%nat -> P l.
 Proof. intros H l Hl. rewrite Forall_forall in H. apply H. apply in_seq. lia. Qed.
@@ -345,6 +395,8 @@ Qed.
 Print Assumptions zp_lawful.
 Print Assumptions zp_tables.
 Print Assumptions zp_inv_prod_exact.
+Print Assumptions zp_inv_prod_x_exact.
+Print Assumptions inv_old_history_dependent.
 Print Assumptions zp_roundtrip.
 Print Assumptions zp_thm_applied.
 Print Assumptions zp_multiply_exact.
@@ -368,6 +420,32 @@ Example f64_run_spec :
   spec_check (mkcase rust_table4
     [OMul [2; 3]%Z [4; 5]%Z [8; 22; 15]%Z; OInv [1; 2]%Z [3; 4]%Z 4 [0; 0; 0; 0]%Z [3; 10; 8; 0]%Z;
      OMulInto [1; -2]%Z [3]%Z [10; 20; 30]%Z [13; 14; 30]%Z]) = true.
+Proof. vm_compute. reflexivity. Qed.
+
+(** The 8-point table as computed by Rust, and the defect recorded in known_findings.txt (fixed: 23bca24):
+    the model of the code BEFORE the repair reproduces the wrong coefficients that
+    [FFT::<f64>::new().fft_inv(spectrum of [1,2,3,4,5]*[6,7,8,9] at n = 8)] returned, digit for digit; the model of the
+    repaired code returns the product; the correspondence case with the inverse transform on a second,
+    fresh object ([OInvX]) is accepted by [model_check] and [spec_check]. *)
+Definition rust_table8 : list (Z * Z) :=
+  [(4607182418800017408,0); (4604544271217802189,4604544271217802188); (4364452196894661639,4607182418800017408);
+   (13827916308072577996,4604544271217802189); (13830554455654793216,4368955796522032135);
+   (13827916308072577998,13827916308072577996); (13594811712176818698,13830554455654793216);
+   (4604544271217802187,13827916308072577998); (4607182418800017408,0)]%Z.
+Definition tw8 := tw_of_table (map c_of_bits rust_table8).
+Example f64_old_defect :
+  snd (inv_prod_x_old fops tw8 (m_new tw8) (m_new tw8) [1;2;3;4;5]%Z [6;7;8;9]%Z 8 (repeat 0%Z 8)) =
+  [24;57;4;57;83;57;111;57]%Z.
+Proof. vm_compute. reflexivity. Qed.
+Example f64_repaired :
+  snd (inv_prod_x fops tw8 (m_new tw8) (m_new tw8) [1;2;3;4;5]%Z [6;7;8;9]%Z 8 (repeat 0%Z 8)) =
+  [6;19;40;70;100;94;76;45]%Z.
+Proof. vm_compute. reflexivity. Qed.
+Example f64_run_x :
+  let c := mkcase rust_table8
+    [OInvX [1;2;3;4;5]%Z [6;7;8;9]%Z 8 [0;0;0;0;0;0;0;0]%Z [6;19;40;70;100;94;76;45]%Z; OSwap; OFresh; OClone; OSwap;
+     OInvX [1;2]%Z [3;4]%Z 4 [1;1;1;1]%Z [4;11;9;1]%Z; OMul [1;2;3;4;5]%Z [6;7;8;9]%Z [6;19;40;70;100;94;76;45]%Z] in
+  (model_check c, spec_check c) = (true, true).
 Proof. vm_compute. reflexivity. Qed.
 
 (** instances of the hypotheses of c04_shape / c04_history_independent: reachable states of both
